@@ -268,6 +268,34 @@ pub fn inputs(quick: bool) -> Vec<String> {
         rules.push(format!("p({a},X) :- q(X)."));
         rules.push(format!("{{p(X,{a})}} :- q(X)."));
     }
+    // atoms of arity 2 and 3 with a complex term in each position
+    for (ti, a) in t1.iter().enumerate() {
+        if quick && ti % 3 != 0 {
+            continue;
+        }
+        rules.push(format!("r :- s({a},X), q(X)."));
+        rules.push(format!("r :- not s(Y,{a}), q(Y)."));
+        rules.push(format!("s({a},{a}) :- q(X), q(Y)."));
+        rules.push(format!("r :- s(X,{a},b), q(X)."));
+        rules.push(format!("{{s(X,{a})}} :- q(X), not q({a})."));
+    }
+    // several body literals sharing variables, two symbols
+    for r in [
+        "p(X) :- q(X), q(Y), X != Y, not r(Y).", "p(X) :- q(X), X != a, X != b.", "p(b) :- q(a).", "r :- q(X), q(X+1), not q(X+2).",
+        "p(X) :- q(X), not not q(X), not q(X).", "{p(X)} :- q(X), X = 1..2, X != 1.", ":- q(X), q(Y), X + Y = 2.", "p(X+Y) :- q(X), q(Y), X < Y.",
+        "p(X) :- X = Y, Y = 1, q(X).", "p(X) :- q(X), 1 < X, X < 3.", "p(1..X) :- q(X).", "p(X..2) :- q(X).", "p(X*Y) :- q(X), q(Y), not q(X*Y).",
+    ] {
+        rules.push(r.to_string());
+    }
+    if quick {
+        // a stride of T_2 in the head context (all of T_2 in the thorough tier)
+        let t2 = terms_exact(2, &lv);
+        for (i, t) in t2.iter().enumerate() {
+            if i % 11 == 0 {
+                rules.push(inst("p({}) :- q(X), q(Y).", t));
+            }
+        }
+    }
     // two-rule programs (global V_n choice)
     let alpha = program_rule_alphabet();
     for a in &alpha {
